@@ -371,6 +371,15 @@ class Prelude:
         A(f"{n}.mem_union", z3.ForAll([a, b, y], mem(uni(a, b), y) == z3.Or(mem(a, y), mem(b, y)), patterns=[mem(uni(a, b), y)]))
         A(f"{n}.mem_inter", z3.ForAll([a, b, y], mem(inter(a, b), y) == z3.And(mem(a, y), mem(b, y)), patterns=[mem(inter(a, b), y)]))
         A(f"{n}.mem_diff", z3.ForAll([a, b, y], mem(diff(a, b), y) == z3.And(mem(a, y), z3.Not(mem(b, y))), patterns=[mem(diff(a, b), y)]))
+        # introduction rules, triggered only when the compound set is already being talked about
+        A(f"{n}.inter_intro", z3.ForAll([a, b, y], z3.Implies(z3.And(mem(a, y), mem(b, y)), mem(inter(a, b), y)),
+                                        patterns=[z3.MultiPattern(inter(a, b), mem(a, y)), z3.MultiPattern(inter(a, b), mem(b, y))]))
+        A(f"{n}.union_intro", z3.ForAll([a, b, y], z3.Implies(z3.Or(mem(a, y), mem(b, y)), mem(uni(a, b), y)),
+                                        patterns=[z3.MultiPattern(uni(a, b), mem(a, y)), z3.MultiPattern(uni(a, b), mem(b, y))]))
+        A(f"{n}.rem_intro", z3.ForAll([a, x, y], z3.Implies(z3.And(mem(a, y), x != y), mem(rem(a, x), y)),
+                                      patterns=[z3.MultiPattern(rem(a, x), mem(a, y))]))
+        A(f"{n}.diff_intro", z3.ForAll([a, b, y], z3.Implies(z3.And(mem(a, y), z3.Not(mem(b, y))), mem(diff(a, b), y)),
+                                       patterns=[z3.MultiPattern(diff(a, b), mem(a, y))]))
         A(f"{n}.subset", z3.ForAll([a, b], sub(a, b) == z3.ForAll([y], z3.Implies(mem(a, y), mem(b, y)), patterns=[mem(a, y)]),
                                    patterns=[sub(a, b)]))
         A(f"{n}.ext", z3.ForAll([a, b], seteq(a, b) == z3.ForAll([y], mem(a, y) == mem(b, y), patterns=[mem(a, y), mem(b, y)]),
